@@ -111,11 +111,15 @@ func h1OraclesMore(env *Env, c *H1Cfg, st *h1State, hr *h1Run, runIdx int, stats
 			if len(es[k]) == 0 || figs[k].Count != ref.Count {
 				continue
 			}
-			if int64(figs[k].Min) < int64(ref.Min) || int64(figs[k].Max) < int64(ref.Max) || int64(figs[k].Average) < int64(ref.Average) {
+			// count and sum are atomic additions and exact under any interleaving; minimum and maximum are updated by
+			// load-compare-store ("we prefer performance over perfect correctness" in f1's own words) and C17 states them
+			// for sequential recording: they are compared when one worker records
+			seq := c.Concurrency == 1
+			if (seq && (int64(figs[k].Min) < int64(ref.Min) || int64(figs[k].Max) < int64(ref.Max))) || int64(figs[k].Average) < int64(ref.Average) {
 				env.Violate("C17", "duration-shorter-than-body", "measure/"+names[k], "%s durations min/avg/max %v/%v/%v are below the bodies' own clocks %v/%v/%v",
 					names[k], figs[k].Min, figs[k].Average, figs[k].Max, ref.Min, ref.Average, ref.Max)
 			}
-			if int64(figs[k].Max) > int64(ref.Max)+stallBudget || int64(figs[k].Min) > int64(ref.Min)+stallBudget || int64(figs[k].Average) > int64(ref.Average)+stallBudget {
+			if (seq && (int64(figs[k].Max) > int64(ref.Max)+stallBudget || int64(figs[k].Min) > int64(ref.Min)+stallBudget)) || int64(figs[k].Average) > int64(ref.Average)+stallBudget {
 				env.Violate("C17", "duration-includes-more-than-body", "measure/"+names[k], "%s durations min/avg/max %v/%v/%v exceed the bodies' own clocks %v/%v/%v (cleanups sleep %s in total, injected stalls %s)",
 					names[k], figs[k].Min, figs[k].Average, figs[k].Max, ref.Min, ref.Average, ref.Max, dur(cleanupSum), dur(stallBudget))
 			}
